@@ -92,18 +92,30 @@ type swFunc struct {
 }
 
 func extractSharedWrites(repo string) (string, error) {
-	wd, err := os.Getwd()
+	x, err := loadSwx(repo)
 	if err != nil {
 		return "", err
+	}
+	x.reach()
+	x.scan()
+	return x.emit(), nil
+}
+
+// loadSwx type-checks the library's packages (module `replace`d onto the repository) and collects functions,
+// value uses, initialisers and the freshness fixpoint.
+func loadSwx(repo string) (*swx, error) {
+	wd, err := os.Getwd()
+	if err != nil {
+		return nil, err
 	}
 	// private go.mod whose replace directive points at the repository under test
 	modSrc, err := os.ReadFile(filepath.Join(wd, "go.mod"))
 	if err != nil {
-		return "", fmt.Errorf("must run in the kinverif module directory: %v", err)
+		return nil, fmt.Errorf("must run in the kinverif module directory: %v", err)
 	}
 	tmp, err := os.MkdirTemp("", "swx")
 	if err != nil {
-		return "", err
+		return nil, err
 	}
 	defer os.RemoveAll(tmp)
 	abs, _ := filepath.Abs(repo)
@@ -126,25 +138,25 @@ func extractSharedWrites(repo string) (string, error) {
 	}
 	pkgs, err := packages.Load(cfg, pats...)
 	if err != nil {
-		return "", err
+		return nil, err
 	}
 	x := &swx{repo: abs, funcs: map[*types.Func]*swFunc{}, byName: map[string][]*swFunc{}, pkgOf: map[*types.Package]*packages.Package{},
 		valueUsed: map[*types.Func]bool{}, declInit: map[*types.Var]bool{}, infos: map[*types.Func]*fnInfo{}}
 	for _, p := range pkgs {
 		if len(p.Errors) > 0 {
-			return "", fmt.Errorf("package %s: %v", p.PkgPath, p.Errors[0])
+			return nil, fmt.Errorf("package %s: %v", p.PkgPath, p.Errors[0])
 		}
 		x.pkgOf[p.Types] = p
 		x.fset = p.Fset
 	}
+	x.pkgList = pkgs
 	x.collect(pkgs)
 	x.freshFixpoint()
-	x.reach()
-	x.scan()
-	return x.emit(), nil
+	return x, nil
 }
 
 type swx struct {
+	pkgList   []*packages.Package
 	repo      string
 	fset      *token.FileSet
 	funcs     map[*types.Func]*swFunc
